@@ -9,6 +9,7 @@ DECIDED = ("R1 link-direction typestate: no write can take a direction out of Ex
            "R5 the state cells are written only inside `Link`'s own methods.")
 NOT_DECIDED = ("correctness of the retain predicate beyond its shape, timing of 'in flight', host-set expansion (for_pairs), "
                "delivery as a run-time event.")
+DECIDED += "; R8 exhaustive scan: for_pairs visits every ordered pair (its loops end only when their iterators are exhausted)"
 ASSUMPTIONS = ["hold/release is outside the property's alphabet (Sim documents the combination with one-way partitions as unsupported)"]
 
 CELLS = {"turmoil::top::Link::state_a_b": "turmoil::top::State", "turmoil::top::Link::state_b_a": "turmoil::top::State"}
@@ -259,8 +260,16 @@ def r5(ctx, ts):
             r = s["r"]
             if r["k"] in ("ref", "addr") and r.get("bk") in ("mut", "Mut") and place_last_field(r["p"]) in CELLS and ts.cell_of(r["p"]):
                 writers.add(b.id + " (&mut)")
+    def hands_out(fid):
+        f = ctx.w.fns.get(fid)
+        if not f:
+            return True
+        t = ctx.w.tys[f["crate"]][f["output"]]
+        return t.get("k") == "ref" and bool(t.get("mut")) and "Restricted" not in str(f.get("vis")) and "top)" not in str(f.get("vis"))
     for wtr in sorted(writers):
-        ok = wtr.startswith("turmoil::top::Link::") and "(&mut)" not in wtr
+        fid = wtr.replace(" (&mut)", "")
+        # a `&mut` borrow of a cell inside a method of Link is a write by Link itself unless the method hands the reference out
+        ok = wtr.startswith("turmoil::top::Link::") and ("(&mut)" not in wtr or not hands_out(fid))
         ctx.inst(R, f"writer:{wtr}", ok, "", "writer inside impl Link" if ok else f"`{wtr}` writes / mutably borrows a link state cell outside impl Link")
     ctx.floor(R, 6)
 
